@@ -36,6 +36,7 @@ type Step struct {
 	Port string `json:"port,omitempty"` // for occupy/release
 	Path string `json:"path,omitempty"` // for writefile: file name inside Dir, written with Text
 	N    int    `json:"n,omitempty"`    // repeat count for signals
+	Tag  string `json:"tag,omitempty"`  // echoed in the observation
 }
 
 // Script is what the parent hands to the child.
@@ -50,6 +51,7 @@ type Script struct {
 // Obs is what the child observed after a step.
 type Obs struct {
 	Op        string            `json:"op"`
+	Tag       string            `json:"tag,omitempty"`
 	OK        bool              `json:"ok"`
 	Err       string            `json:"err,omitempty"`
 	Hung      bool              `json:"hung,omitempty"`
@@ -107,6 +109,9 @@ func init() {
 		}
 	}()
 }
+
+// RemoveConf as the text of a reload step: remove the configuration file instead of rewriting it.
+const RemoveConf = "@@remove-the-configuration-file@@"
 
 type fileLoader struct{ path string }
 
@@ -302,7 +307,7 @@ func run(scriptPath string) int {
 	occupied := map[string]net.Listener{}
 	occupiedUDP := map[string]net.PacketConn{}
 	for _, st := range sc.Steps {
-		o := Obs{Op: st.Op}
+		o := Obs{Op: st.Op, Tag: st.Tag}
 		t0 := time.Now()
 		done := make(chan error, 1)
 		go func(st Step) {
@@ -353,7 +358,11 @@ func run(scriptPath string) int {
 				}
 				done <- err
 			case "reload":
-				os.WriteFile(conf, []byte(st.Text), 0o644)
+				if st.Text == RemoveConf {
+					os.Remove(conf) // the operator's configuration file is gone when the signal arrives
+				} else {
+					os.WriteFile(conf, []byte(st.Text), 0o644)
+				}
 				off := logSize(logFile)
 				syscall.Kill(os.Getpid(), syscall.SIGUSR1)
 				// completion is visible in the process log
